@@ -22,6 +22,9 @@ INVALID = [("{mother} -> ", "({mother} -> {daughters})"),            # lacks dau
 
 # single patterns for the validation table (model against code, both directions)
 PATTERN_TABLE = [
+    # placeholders spelled with characters that merely look like, or normalise to, the right ones: other names, refused
+    "{\uff4dother} -> {daughters}", "{mother} -> {daughter\u017f}", "{mother} --> {daughters} {\uff4dother}", "{mo\u0074\u0068er} {daughters}",
+    "{m\u043ether} {daughters}", "{mother} {daughters\u00a0}", "{mother}\u00a0{daughters}", "\uff5bmother\uff5d {daughters}",
     "{mother} -> {daughters}", "{mother}{daughters}", "{daughters}{mother}{mother}", "{{x}} {mother} {daughters}",
     "{mother} {}", "{mother}", "{daughters}", "", "plain", "{mother} {daughters} {x}", "{mother:>5} {daughters!r}",
     "{mother!s:^9} {daughters:{mother}}", "{mother.a} {daughters}", "{mother[0]} {daughters}", "{mother", "mother}",
